@@ -11,6 +11,7 @@ import PP.Driver.OpsC01
 import PP.Driver.OpsC11
 import PP.Driver.OpsC07
 import PP.Driver.OpsC19b
+import PP.Driver.OpsCLI
 /-
 Request handlers of the model driver.
 -/
@@ -186,6 +187,9 @@ def handle (j : Json) : Except String Json := do
                   | none =>
                     match PP.OpsC19b.handle op j with
                     | some r => r
-                    | none => throw s!"unknown op {op}"
+                    | none =>
+                      match PP.OpsCLI.handle op j with
+                      | some r => r
+                      | none => throw s!"unknown op {op}"
 
 end PP.Ops
